@@ -46,6 +46,7 @@ type Contract struct {
 	PureFrame bool // assigns nothing
 	Trusted   bool // contract is assumed, not verified (must be listed in evidence)
 	Inline    bool // verified on its own, but callers inline the body
+	Discipline map[string][]string // ghost protocol disciplines checked on this function: name -> props
 	Effects   []*Effect
 	File      string
 	Pkg       string
@@ -377,6 +378,16 @@ func (db *SpecDB) LoadSpecFile(path, pkgPath string) {
 			cur.Trusted = true
 		case word == "inline":
 			cur.Inline = true
+		case word == "discipline":
+			// discipline [props:label] walkers-drained | locks-released | no-graph-write-while-walking
+			props, _, body := parseTag(rest)
+			if props == nil {
+				props = cur.Props
+			}
+			if cur.Discipline == nil {
+				cur.Discipline = map[string][]string{}
+			}
+			cur.Discipline[strings.TrimSpace(body)] = props
 		case word == "effect" || word == "defines":
 			// effect <cond> : pred(arg) := true|false
 			i := strings.LastIndex(rest, ":=")
@@ -991,6 +1002,22 @@ func (e *Env) call(n *ast.CallExpr) Value {
 			ts = append(ts, t)
 		}
 		return Eq(App("g_Verify_r0", SInt, ts...), IntC(0))
+	case "lastArg":
+		// lastArg("pattern", k): k-th argument (receiver first) of the most recent call matching the pattern
+		lit, ok := n.Args[0].(*ast.BasicLit)
+		kl, ok2 := n.Args[1].(*ast.BasicLit)
+		if !ok || !ok2 {
+			return e.fail("lastArg needs (string literal, index literal)")
+		}
+		pat, _ := strconv.Unquote(lit.Value)
+		k, _ := strconv.Atoi(kl.Value)
+		for i := len(e.st.Events) - 1; i >= 0; i-- {
+			ev := e.st.Events[i]
+			if eventMatches(ev, pat) && k < len(ev.Args) {
+				return ev.Args[k]
+			}
+		}
+		return nilMarker{}
 	case "lastResult":
 		// lastResult("pattern", k): k-th result of the most recent call matching the pattern on this path
 		lit, ok := n.Args[0].(*ast.BasicLit)
@@ -1007,6 +1034,22 @@ func (e *Env) call(n *ast.CallExpr) Value {
 			}
 		}
 		return nilMarker{}
+	case "heldw", "heldr":
+		p, ok := e.eval(n.Args[0]).(*PtrV)
+		if !ok {
+			// address of a mutex field: evaluate as lvalue
+			p = e.lvalueExpr(n.Args[0])
+		}
+		if p == nil {
+			return e.fail("%s needs the mutex (e.g. ab.mux)", id.Name)
+		}
+		k := "w:" + lockKey(p)
+		if id.Name == "heldr" {
+			k = "r:" + lockKey(p)
+		}
+		return BoolC(e.st.Held[k] > 0)
+	case "walking":
+		return BoolC(len(e.st.Open) > 0)
 	case "addressOf":
 		iv, ok := e.eval(n.Args[0]).(*IfaceV)
 		if !ok {
